@@ -357,7 +357,7 @@ def tamper_part(chk, exe, mode):
             continue                         # long packets: separate buffers, the tamper classes that involve the length
         g = []
         sid = f"{sh['v']}-{alen}-{mlen}-{sh['alias']}-t{t}"
-        budget = 8 if (sh['alias'] or not chk.thorough and mlen > 13) else 10 ** 6
+        budget = 8 if (sh['alias'] or (not chk.thorough and mlen > 13) or long_ or mlen > 64 or alen > 64) else 10 ** 6
 
         def bits(nbits):
             return list(range(nbits)) if nbits <= budget else r.sample(range(nbits), 3 if long_ else 8)
